@@ -58,6 +58,29 @@ def twin(v):
     return v
 
 
+def to_plain(v):
+    if isinstance(v, dict):
+        return {k: to_plain(x) for k, x in v.items()}
+    if isinstance(v, (list, tuple)):
+        return [to_plain(x) for x in v]
+    return v
+
+
+def scribble(v):
+    """Edit every mutable container reachable inside v (through tuples too)."""
+    if isinstance(v, dict):
+        for x in list(v.values()):
+            scribble(x)
+        v["scribbled-by-the-caller"] = 1
+    elif isinstance(v, list):
+        for x in list(v):
+            scribble(x)
+        v.append("scribbled-by-the-caller")
+    elif isinstance(v, tuple):
+        for x in v:
+            scribble(x)
+
+
 def check_case(ctx, text, doc, cls):
     import jsonpath
 
@@ -124,6 +147,23 @@ def check_case(ctx, text, doc, cls):
                 ctx.violation("%s-through-match-pointer-edits-wrong-node" % what, case, dict(detail, got=canon(r.value)[:300], expected=canon(want)[:300]))
                 return
             ctx.cell("op_x_class", "%s %s" % (what, "+".join(sorted(classes))[:40]))
+        if sel.index(m) < 2:
+            # one replace patch applied twice; in between the caller edits the containers inside the first result's new value
+            for nv in ({"NEW": ["r", 1]}, (["n"],), {"t": ([], {"k": []})}, [("a", [1])], ((),), [[]]):
+                patch = jsonpath.JSONPatch().replace(ptr.value, copy.deepcopy(nv))
+                want = edit(doc, parts, "replace", to_plain(nv))
+                r1 = impl.call(patch.apply, copy.deepcopy(doc))
+                if r1.ok:
+                    node = r1.value
+                    for p_ in parts:
+                        node = node[p_]
+                    scribble(node)
+                r2 = impl.call(patch.apply, copy.deepcopy(doc))
+                ctx.count("replacements_reapplied_after_the_caller_edited_the_first_result")
+                if not r1.ok or not r2.ok or not strict_eq(to_plain(r2.value), want):
+                    ctx.violation("replace-through-match-pointer-depends-on-what-the-caller-did-with-an-earlier-result", case,
+                                  {"text": text, "parts": list(parts), "new_value": repr(nv), "second_result": canon(to_plain(r2.value))[:300] if r2.ok else r2.desc(), "expected": canon(want)[:300]})
+                    return
         for c in classes:
             ctx.cell("part_classes", c)
         ctx.count("matches_edited")
